@@ -1,8 +1,25 @@
 #!/bin/bash
-# usage: try_seed.sh <seed dir> <prop> [tier]  — applies the seeded patch to /repo, runs the check, and undoes it
+# usage: try_seed.sh <seed dir> <prop> [tier]
+# Applies the seeded patch to /repo, runs the check and undoes it.  If the patch no longer applies to /repo's HEAD
+# (a later fix: commit touched the same lines) it is tried on a scratch worktree of the pinned commit instead, and
+# the violations are compared with those of the pinned commit itself.
 D=$1; P=$2; T=${3:-quick}
 [ -f $D/patch.diff ] || { echo no patch; exit 2; }
-git -C /repo apply $D/patch.diff || { echo "patch does not apply"; exit 2; }
-cd /verif && ./check $P $T | grep -v "^    via" | cut -c1-400 | tail -${LINES_OUT:-12}
-git -C /repo checkout -- .
-git -C /repo status --short | head -3
+cd /verif
+if git -C /repo apply --check $D/patch.diff 2>/dev/null; then
+  git -C /repo apply $D/patch.diff
+  ./check $P $T | grep -v "^    via" | cut -c1-400 | tail -${LINES_OUT:-12}
+  git -C /repo checkout -- .
+  git -C /repo status --short | head -3
+else
+  WT=/tmp/wt/try-$$
+  git -C /repo worktree add --detach $WT 35f2dd2 >/dev/null 2>&1
+  echo "NOTE: patch does not apply to HEAD; evaluated on the pinned commit 35f2dd2"
+  VERIF_REPO=$WT ./check $P $T | grep "^VIOLATION\|^KNOWN" | sort > /tmp/try-base-$$.txt
+  git -C $WT apply $D/patch.diff || echo "PATCH DOES NOT APPLY TO PINNED EITHER"
+  VERIF_REPO=$WT ./check $P $T | grep "^VIOLATION\|^KNOWN" | sort > /tmp/try-seed-$$.txt
+  echo "violations only with the seed:"; comm -13 /tmp/try-base-$$.txt /tmp/try-seed-$$.txt | cut -c1-300
+  echo "NEW-VIOLATIONS $(comm -13 /tmp/try-base-$$.txt /tmp/try-seed-$$.txt | grep -c VIOLATION)"
+  rm -f /tmp/try-base-$$.txt /tmp/try-seed-$$.txt
+  git -C /repo worktree remove --force $WT
+fi
